@@ -142,6 +142,14 @@ def generate(ctx):
                     run.oblige("closed-form: cell = f(x) D(x,y) res^2 upwind", loops.scalar_eq(ffm.at(j, i), spec_cell(p, xa, ya, sv, res)), kind="post",
                                view="value", assuming=rng + [xa > 0])
                 run.oblige("downwind-cells-are-zero", loops.scalar_eq(ffm.at(j, i), 0), kind="post", view="value", assuming=rng + [xa <= 0])
+                if wd is None:
+                    # "it is non-negative": under the helper postconditions (phi_c > 0, m > 0, 0 < n < 3/2: km.helpers) and U > 0 (the
+                    # path without the warning has U >= 0) every upwind cell of the CODE's expression is strictly positive; exp, pow,
+                    # sqrt, gamma uninterpreted with the ground positivity instances of the applications that occur (A8)
+                    cell = num(ffm.at(j, i))
+                    hp = [H["phi_c"] > 0, H["phi_m"] > 0, H["m"] > 0, H["n"] > 0, H["n"] < Fraction(3, 2), num(p["U"]) > 0]
+                    hy = transc.order_instances([cell]) + transc.pi_facts()
+                    run.oblige("non-negative: upwind cells are positive", cell > 0, kind="post", cls="premise", hyps=hy, assuming=rng + [xa > 0] + hp)
                 run.cover("path")
             ctx.explore("km.estimateFootprint[%s|%s]" % (ztype, wdcfg), thunk, P)
 
@@ -181,6 +189,15 @@ def generate(ctx):
                 r = fn(*args)
                 run.oblige("%s[%s] == published expression" % (name, tag), loops.scalar_eq(r.at(k), p[key]), kind="post", view="value",
                            assuming=rng + [num(ust.at(k)) > 0])
+                # sign / range of the helper results (used as callee postconditions by the non-negativity clause)
+                v = num(r.at(k))
+                hy = transc.order_instances([v])
+                if key in ("phi_m", "phi_c"):
+                    run.oblige("%s[%s] > 0" % (name, tag), v > 0, kind="post", cls="premise", hyps=hy, assuming=rng)
+                elif key == "m":
+                    run.oblige("%s[%s] > 0" % (name, tag), v > 0, kind="post", cls="premise", hyps=hy, assuming=rng + [num(ust.at(k)) > 0])
+                elif key == "n":
+                    run.oblige("%s[%s] in (0, 3/2)" % (name, tag), (v > 0) & (v < Fraction(3, 2)), kind="post", cls="premise", hyps=hy, assuming=rng)
     ctx.explore("km.helpers", t_helpers, P)
 
     # estimateZ0 without smoothing inverts the diabatic log law
